@@ -422,7 +422,8 @@ def safen(sub, ty, need):
 
 
 def gen_case(rng, focus=()):
-    denoms = {k: rng.choice([(), (), (2,), (3,)]) for k in KEYS}
+    # denominators of rank 0, 1 and 2 (seeded change C16-J: the quaternion product put a 2-D denominator back transposed)
+    denoms = {k: rng.choice([(), (), (2,), (3,), (2, 3), (2, 2)]) for k in KEYS}
     keysets = {k: rng.choice([0.0, 0.5, 0.5, 1.0]) for k in KEYS}
     if keysets['t'] == 0.0 and keysets['u'] == 0.0:
         keysets['t'] = 0.6
@@ -447,7 +448,7 @@ def gen_cases(rng, tier, focus=()):
     # a small exhaustive core: every operation once on its own with every subset of operands carrying the key
     for nm, (argt, rt, needs, rc, fam) in sorted(OPS.items()):
         for subset in range(1, 2 ** len(argt)):
-            for den in ((), (2,)):
+            for den in ((), (2,), (2, 3)):
                 leaves = []
                 args = []
                 for i, (t, need) in enumerate(zip(argt, needs)):
